@@ -36,6 +36,18 @@ func (r roots) methodIndex(method string) int {
 	return -1
 }
 
+// exact returns the route registered for exactly this method and pattern, or nil if there is none.
+func (r roots) exact(method, pattern string) *Route {
+	index := r.methodIndex(method)
+	if index < 0 {
+		return nil
+	}
+	if n := r.search(r[index], pattern); n != nil && n.isLeaf() && n.route.pattern == pattern {
+		return n.route
+	}
+	return nil
+}
+
 func (r roots) search(rootNode *node, path string) (matched *node) {
 	current := rootNode
 
@@ -449,12 +461,14 @@ Walk:
 		}
 
 		if charsMatched < len(path) {
-			// linear search
+			// linear search, a wildcard child is never a static edge even if the segment start with '{' or '*'
 			idx := -1
-			for i := 0; i < len(current.childKeys); i++ {
-				if current.childKeys[i] == path[charsMatched] {
-					idx = i
-					break
+			if path[charsMatched] != bracketDelim && path[charsMatched] != starDelim {
+				for i := 0; i < len(current.childKeys); i++ {
+					if current.childKeys[i] == path[charsMatched] {
+						idx = i
+						break
+					}
 				}
 			}
 
